@@ -173,7 +173,7 @@ theorem seLeafXR : LeafXR SEInv where
   armTop := fun t => by unfold armTop; se_frame_tac
   setStopping := by unfold setStopping; se_frame_tac
   setRestarting := by unfold setRestarting; se_frame_tac
-  clearRestarting := by unfold clearRestarting; se_frame_tac
+  clearRestarting := fun b => by unfold clearRestarting; se_frame_tac
   setLoopStop := fun b => by unfold setLoopStop; se_frame_tac
   setSocketEvent := fun b => by unfold setSocketEvent; se_frame_tac
   setSockReady := fun b => by unfold setSockReady; se_frame_tac
